@@ -227,6 +227,7 @@ class Interp:
 
     # -- path bookkeeping ---------------------------------------------------
     def _reset_path(self, prefix):
+        self.world.restore_mutables()
         self.prefix = list(prefix)
         self.choices = []           # [(chosen index, n options)]
         self.effects = []
